@@ -13,6 +13,7 @@ import (
 	"fmt"
 	"os"
 	"path/filepath"
+	"servitor/verifrt"
 	"sort"
 	"strconv"
 	"strings"
@@ -101,6 +102,21 @@ func New(id, level, rule string) *Report {
 		r.Tier = "quick"
 	}
 	r.loadKnown()
+	// A goroutine of servitor that panics in pass-through mode would end the real program;
+	// here it is recovered so that the harness survives, but whoever waits for it (a
+	// WaitGroup in a constructor) waits for ever. Harnesses that drive the UI collect such a
+	// panic when they settle; if nobody has collected it after a while, the check has no
+	// verdict and must not hang.
+	if verifrt.OnPassPanic == nil {
+		verifrt.OnPassPanic = func(msg string) {
+			go func() {
+				time.Sleep(30 * time.Second)
+				if verifrt.PendingPanic() != "" {
+					Fatal("a background goroutine of servitor panicked and the code waiting for it is stuck (the real program would have crashed): %s", msg)
+				}
+			}()
+		}
+	}
 	if *FlagReplay == "" && *FlagShard == "" {
 		os.RemoveAll(filepath.Join(r.VerifDir, "replays", r.ID)) // artefacts of earlier runs are stale
 	}
